@@ -512,7 +512,7 @@ def w_logout_race(job):
 def w_perm(job):
     """two tokens; create / generate / copy / set / destroy, re-initialisation, restart; every file and directory below the token
     directory after every step; db back-end: the rollback journal is kept on disk by a crash point inside a C_CreateObject"""
-    part = Part(); sp = job['umask']; b = job['backend']; um = umask_of(sp); d = os.path.join(job['scratch'], 'perm-%s-%s' % (b, sp)); shutil.rmtree(d, ignore_errors=True); os.makedirs(d)
+    part = Part(); sp = job['umask']; b = job['backend']; um = umask_of(sp); d = os.path.join(job['scratch'], 'perm-%s-%s-%s' % (job['cfg'], b, sp)); shutil.rmtree(d, ignore_errors=True); os.makedirs(d)
     L = Lib(job, d, b, job['cfg'], '' if sp == 'default' else 'objectstore.umask = %s\n' % sp); tok = d + '/tokens'; roles = set(); exact = [False]
     def check(where):
         for p, st in persist.all_files(tok):
